@@ -247,13 +247,29 @@ type ReplayFile struct {
 
 // rssBytes reads the resident set size of this process (0 if unknown).
 func rssBytes() int64 {
+	_, rss := memSizes()
+	return rss
+}
+
+// memSizes returns the virtual and resident size of this process. The virtual
+// size matters too: every bolt file of the Raft backend is mapped with a
+// 100 GB initial size, and mappings of torn-down runs whose goroutines are
+// still parked stay around, so a long-lived worker runs out of the 128 TB
+// address space ("cannot allocate memory") long before it runs out of RAM.
+func memSizes() (vsz, rss int64) {
 	b, err := os.ReadFile("/proc/self/statm")
 	if err != nil {
-		return 0
+		return 0, 0
 	}
-	var size, rss int64
-	fmt.Sscan(string(b), &size, &rss)
-	return rss * int64(os.Getpagesize())
+	var size, res int64
+	fmt.Sscan(string(b), &size, &res)
+	pg := int64(os.Getpagesize())
+	return size * pg, res * pg
+}
+
+func workerShouldHandOver() bool {
+	vsz, rss := memSizes()
+	return rss > 3<<30 || vsz > 24<<40 || mapCount() > 20000
 }
 
 // mapCount is the number of memory mappings of this process (the kernel
@@ -323,7 +339,7 @@ func TestEngine(t *testing.T) {
 		// a worker that has grown large (mmap'ed bolt files, leaked timers of
 		// torn-down cores) hands over to a fresh process instead of running
 		// into "cannot allocate memory"; the driver continues at VERIF-NEXT
-		if n%32 == 31 && (rssBytes() > 3<<30 || mapCount() > 20000) {
+		if n%32 == 31 && workerShouldHandOver() {
 			break
 		}
 		seed := mixSeed(*fSeed, run)
